@@ -100,7 +100,8 @@ CHECKS = {
          "(is_collider, the two chains, the fork) equals its definition -- a collider is open iff one of its descendants is conditioned on; a non-collider with a directed edge out "
          "of the middle node is blocked only when the middle node is conditioned on and lies outside the sigma class of the child -- the combined triple test is mirror symmetric "
          "(helper(l,m,r) = helper(r,m,l): the step from which symmetry of the verdict follows), and get_equivalence_classes returns exactly the strongly connected components "
-         "(singletons on acyclic graphs). The path enumeration (networkx.all_simple_paths, more_itertools.triplewise, the one-step backtracking) is outside the subset; symmetry, the "
+         "(singletons on acyclic graphs); the one-step backtrack augmentation (_triple_has_correct_form) equals its definition -- the plain test, or through some neighbour n != m of the "
+         "middle node the triples (l,m,n), (m,n,m), (n,m,r) all pass -- and is mirror symmetric as well. The path enumeration (networkx.all_simple_paths, more_itertools.triplewise) is outside the subset; symmetry, the "
          "adjacency rule and agreement with d-separation on acyclic graphs are decided end to end by the labelled bounded stand-in: every directed mixed graph with 2-3 nodes x every "
          "query and sampled 4-5 node graphs against networkx d-separation on the canonical DAG, including a history family (the graph object is queried once before its last edge "
          "is added in place: no verdict may depend on state kept from an earlier call).",
@@ -121,7 +122,8 @@ CHECKS = {
  "C18": ("other", "Proved for all graphs and node pairs (exact theory of relations): merge_pw returns (graph', kept, eliminated) where the factual copy is preferred, every edge not "
          "touching the eliminated copy survives, the eliminated copy's children and bidirected neighbours are redirected to the kept copy, the eliminated copy is gone, the kept "
          "copy is present, no node is invented, and every other node survives except parents of the eliminated copy that are not parents of the kept one (that exception is the open "
-         "known finding: the paper's merge removes only the eliminated copy). The construction as a whole (worlds as frozensets of interventions, `node @ world`, the event dictionary) "
+         "known finding: the paper's merge removes only the eliminated copy). The structural parts of the Lemma 24 test are proved too: has_same_confounders (joined by a bidirected edge, or "
+         "neither has one), has_same_function (copies of one variable, both or neither fixed by their own world), is_not_self_intervened (relative to the Variable algebra). The construction as a whole (worlds as frozensets of interventions, `node @ world`, the event dictionary) "
          "needs a Variable algebra the generator does not have; the probability / inconsistency / ancestral-graph clauses are decided by the labelled bounded stand-in: "
          "make_counterfactual_graph against a functional-SCM oracle (noise shared across worlds) on every ADMG with 2-3 nodes and sampled 3-4 node ADMGs with sampled conjunctions of "
          "up to 3 counterfactual events (non-reflexive subscripts); and a run-time contract of make_parallel_worlds_graph (bounded): nodes, directed and bidirected edges equal the "
@@ -152,7 +154,8 @@ CHECKS = {
          "variable iff that set is non-empty and otherwise the plain variable -- in particular the constructor's ValueError for an empty subscript set is unreachable; same_district "
          "is true iff all base variables lie in one bidirected-connectivity class; get_ancestors_of_counterfactual returns exactly the set of Def. 2.1 (for graphs whose nodes are "
          "unstarred plain variables): every member is W or W_z with W an ancestor of Y in G with the edges out of X removed and z exactly the subscripts of x that are ancestors of W "
-         "in G with the edges into X removed, and every such W occurs. Bounded stand-in (labelled): minimisation and the Def. 2.1 ancestors against independent "
+         "in G with the edges into X removed, and every such W occurs; is_counterfactual_factor_form is true exactly for events in ctf-factor form (Def. 3.4: subscripts on every parent of "
+         "the base variable and none on the base variable itself; no parents for a variable without subscripts). Bounded stand-in (labelled): minimisation and the Def. 2.1 ancestors against independent "
          "re-implementations on every ADMG with 2-3 nodes and sampled 3-4 node ADMGs x every counterfactual variable with <= 2 subscripts; SIMPLIFY against a functional-SCM oracle "
          "(None only for probability-zero events, otherwise equal probability, no ill-formed variable) outside the input class of one open known finding; get_ancestral_components against a re-implementation of Def. 4.2 (sampled root sets "
          "<= 3 variables, X* a subset); do_counterfactual_factor_factorization against Eq. 11-15 structurally and the identity itself numerically on functional SCMs (queries whose "
